@@ -3,30 +3,9 @@ import itertools
 from fractions import Fraction as Fr
 
 from .. import qc
-from ..qc import Case, compare_flags, expect_raise, result_vec, run_case
+from ..qc import Case, table_rule
 from ..scen import data_input, time_input
 from ..specs import GrossRange, ValidRange
-
-
-def table_rule(ck, rule, case, spec):
-    out = run_case(ck, case)
-    if not expect_raise(ck, rule + '.reject' if spec.rejects else rule + '.total', case, out, spec.rejects,
-                        'invalid parameters must be rejected'):
-        return
-    if spec.rejects:
-        return
-    vec = result_vec(ck, rule, case, out)
-    if vec is None:
-        return
-    if len(vec) != case.n:
-        ck.violate(rule + '.shape', f'{qc.fn_key(case)}:length', f'{case.test} returns {len(vec)} flags for {case.n} inputs', dict(case=case.label))
-        return
-    res = compare_flags(ck, rule, case, vec, spec.pos)
-    for m in res.mismatches:
-        ck.violate(rule + '.table', f'{qc.fn_key(case)}:{case.meta.get("class", "")}:{qc.class_of_mismatch(m)}',
-                   f"{case.test}: cell {m['cell']} gives {m['got']}, the property allows {m['allowed']}", m)
-    if not res.mismatches:
-        ck.hold(rule + '.table', case.label)
 
 
 def gross_range_cases(ck):
@@ -80,9 +59,9 @@ def run(ck):
         'interpretation of the function source; no repository code is executed. Not decided: numpy datetime comparison '
         'semantics, float rounding.')
     for case in gross_range_cases(ck):
-        table_rule(ck, 'C03.gross', case, GrossRange(case))
+        table_rule(ck, 'C03.gross', case, GrossRange(case), scope='all')
     for case in valid_range_cases(ck):
         sc = Case(case.test, case.args, case.spec_kwargs, n=case.n, pat=case.pat)
-        table_rule(ck, 'C03.valid', case, ValidRange(sc))
+        table_rule(ck, 'C03.valid', case, ValidRange(sc), scope='all')
     ck.floor('C03.gross.table', 50)
     ck.floor('C03.valid.table', 50)
